@@ -2433,7 +2433,9 @@ oracle = no panic; success xor (diagnostic with file/line/col or close error); i
 					let mut p = gen.project.clone();
 					p.files[0].1 = m.into_bytes();
 					// a parse-class construct that lacks its terminator swallows what follows; anything is fine but it must fail
-					check_c06(cx, &p, Expect::MustFail, class, &dir);
+					// an unclosed block comment is closed by a `*/` that follows (the renderer writes line comments ending in `*/`): then anything is fine
+					let closed_later = text.contains("/*") && main[at..].contains("*/");
+					check_c06(cx, &p, if closed_later {Expect::Any} else {Expect::MustFail}, class, &dir);
 					if made <= 4 {cx.report.sample(format!("{class}: {text}"));}
 				}
 				else
